@@ -251,6 +251,20 @@ def compare(s, a, b, la, lb, upto, counts, near=0.05, limit_steps=()):
                     break
         counts["steps_compared"] = counts.get("steps_compared", 0) + 1
         if msg:
+            if pdd:
+                # the reference must itself follow the documented pressure-demand curve before it can judge anybody: EPANET 2.2
+                # delivers the FULL demand at a junction next to a closed PRV although its own pressure is below the required
+                # pressure (pumpfeed + PRV 20 + PDD); such a step is skipped and counted
+                for nd in s["nodes"]:
+                    if nd["t"] == "junc" and nd["demands"]:
+                        pe, de = float(b.node["pressure"][nd["n"]][i]), float(b.node["demand"][nd["n"]][i])
+                        D = expected_demand(s, nd["n"], b.times[i])
+                        pmin_, preq_ = s["opts"]["pmin"], s["opts"]["preq"]
+                        if D > 0 and pmin_ + 0.15 < pe < preq_ - 0.15:
+                            doc = D * ((pe - pmin_) / (preq_ - pmin_)) ** s["opts"]["pexp"]
+                            if abs(de - doc) > 1e-3 * D + 1e-6 and lb.startswith("EPANET") and "PDD" == s["opts"]["dm"]:
+                                counts["reference_off_its_own_curve"] = counts.get("reference_off_its_own_curve", 0) + 1
+                                return "reference-off-its-own-curve", i
             if pdd and inside:
                 counts["pdd_band_skips"] = counts.get("pdd_band_skips", 0) + 1
                 return "pdd-band", i
@@ -363,7 +377,7 @@ def leg_c(s, units, counts, upto_hint=None):
     if rw.error and len(rw.times) < upto:
         upto = len(rw.times)        # WNTR's own failures are judged by leg A
     msg, k = compare(s, rw, ref, "WNTR(read %s)" % units, "EPANET(text %s)" % units, upto, counts, limit_steps=ref.limit_steps)
-    if msg and msg not in ("near-tie", "pdd-band"):
+    if msg and msg not in ("near-tie", "pdd-band", "reference-off-its-own-curve"):
         viol.append({"key": "C:reader:%s:%s" % (units, _cls(msg)), "what": "%s (deviations %s)" % (msg, devkey(s))})
     return viol
 
@@ -414,7 +428,7 @@ def run_case(s):
             upto = nsolved
     if not viol:
         msg, k = compare(s, rw, re_, "WNTR", "EPANET", upto, counts, limit_steps=limit_steps)
-        if msg and msg not in ("near-tie", "pdd-band"):
+        if msg and msg not in ("near-tie", "pdd-band", "reference-off-its-own-curve"):
             viol.append({"key": "A:differ:%s" % dk, "what": "%s (skeleton %s, deviations %s)" % (msg, s.get("id", {}).get("skel"), dk)})
         compared = k
     else:
@@ -430,7 +444,7 @@ def run_case(s):
             continue
         msg, k = compare(s, ru, re_, "EPANET[%s]" % u, "EPANET[LPS]", upto, counts)
         counts["unit_runs"] = counts.get("unit_runs", 0) + 1
-        if msg and msg not in ("near-tie", "pdd-band"):
+        if msg and msg not in ("near-tie", "pdd-band", "reference-off-its-own-curve"):
             viol.append({"key": "B:units:%s:%s" % (u, _cls(msg)), "what": "%s (deviations %s)" % (msg, dk)})
     # ---- leg C: reading an INP text gives what EPANET computes for it (skipped when leg A already differs)
     if not any(v["key"].startswith("A:") for v in viol):
